@@ -23,3 +23,4 @@ def _share():
 
 
 M.after_load = _share
+M.shared_checks = [('C11', 'preserved_cwd is used only around the whole partial execution')]
